@@ -109,7 +109,9 @@ def axis_case(draw):
             dims.insert(draw(st.integers(0, len(dims))), cname)
         vkind = draw(st.sampled_from(["random", "linear", "random", "int_like"]))
         nan = draw(st.sampled_from(["none", "none", "node", "scatter"])) if has else "none"
-        variables.append({"name": f"var{v}", "dims": dims, "kind": vkind, "nan": nan})
+        # infinite values are data (the library's own default depth is +inf), not missing values
+        inf = draw(st.sampled_from(["none", "none", "none", "node", "scatter"])) if has and nan == "none" and vkind != "linear" else "none"
+        variables.append({"name": f"var{v}", "dims": dims, "kind": vkind, "nan": nan, "inf": inf})
     tg, scalar = draw(targets_for(xp, kind))
     return {"coord": cname, "ckind": kind, "xp": xp, "sizes": passive_sizes, "vars": variables,
             "seed": seed, "targets": tg, "scalar": scalar, "nearest": draw(st.integers(0, 3)) == 0,
@@ -157,6 +159,17 @@ def build_dataset(c):
                 arr[tuple(idx)] = np.nan
             else:
                 arr[rng.uniform(size=shape) < 0.2] = np.nan
+        if v.get("inf", "none") != "none" and c["coord"] in v["dims"]:
+            ax = v["dims"].index(c["coord"])
+            if v["inf"] == "node":
+                nodes = rng.choice(len(xp), size=min(max(1, len(xp) // 3), len(xp)), replace=False)
+                idx = [slice(None)] * len(shape)
+                idx[ax] = nodes
+                arr[tuple(idx)] = np.inf
+            else:
+                m = rng.uniform(size=shape)
+                arr[m < 0.12] = np.inf
+                arr[m > 0.94] = -np.inf
         used = {d: coords[d] for d in v["dims"]}
         data[v["name"]] = xarray.DataArray(arr.copy(), dims=v["dims"], coords=used)
         raw[v["name"]] = arr
@@ -168,12 +181,13 @@ def compare_interp(name, got, node, elem, ties, alts, axis, raw, classes, strict
     one half (see oracle.interp) any of the admissible alternatives is accepted."""
     got = np.asarray(got, dtype=float)
     require(got.shape == node.shape, "output_shape", f"{name}: {got.shape} vs {node.shape}")
-    scale = np.nanmax(np.abs(raw)) if np.isfinite(np.nanmax(np.abs(raw))) else 1.0
+    finite = np.abs(raw[np.isfinite(raw)])
+    scale = float(finite.max()) if finite.size else 1.0
     tol = 1e-11 * max(scale, 1e-300)
 
     def same(a, b):
         with np.errstate(all="ignore"):
-            return (np.abs(a - b) <= tol) | (np.isnan(a) & np.isnan(b))
+            return (np.abs(a - b) <= tol) | (np.isnan(a) & np.isnan(b)) | (np.isinf(a) & (a == b))
 
     def per_target(ok):
         return np.moveaxis(ok, axis, 0).reshape(ok.shape[axis], -1).all(axis=1)
@@ -259,6 +273,8 @@ def run_axis(c):
             classes.append("axis_not_last")
         if v["kind"] == "linear":
             classes.append("linear_data")
+        if v.get("inf", "none") != "none":
+            classes.append("infinite_values_" + v["inf"])
     # operands untouched
     for k, v in before.items():
         require(np.asarray(ds[k].values).tobytes() == v.tobytes(), "input_dataset_unchanged", k)
@@ -330,6 +346,10 @@ def spectrum_case(draw):
         s = draw(GS.spec2d_case(layouts=["t"] if mode == "time_2d" else ["none", "t"], kinds=kinds, max_nf=10,
                                 max_nd=12, uniform_only=True, allow_zero_f=False, max_len=4, min_len=2))
     s["depth"] = [float(10.0 + i) for i in range(len(s["depth"]))]
+    if draw(st.booleans()):
+        # deep water (+inf, the library's default depth) at some or all points
+        which = draw(st.lists(st.booleans(), min_size=len(s["depth"]), max_size=len(s["depth"])))
+        s["depth"] = [float("inf") if w else d for w, d in zip(which, s["depth"])]
     if mode.startswith("time"):
         xp = s["time"]
         tg, _ = draw(targets_for(xp, "time", max_targets=5))
@@ -433,8 +453,14 @@ def run_spectrum(c):
         with np.errstate(all="ignore"):
             require(((np.abs(lat - nl) <= 1e-10) | (np.isnan(lat) & np.isnan(nl))).all(),
                     "latitude_interpolated_linearly", f"{lat} vs {nl}")
+        dep = np.asarray(out.dataset["depth"].values, dtype=float)
+        nd_, _, _, _ = OI.interp_axis(xp, np.array(sc["depth"], dtype=float), 0, tt)
+        with np.errstate(all="ignore"):
+            okd = (np.abs(dep - nd_) <= 1e-10 * np.abs(nd_)) | (np.isnan(dep) & np.isnan(nd_)) | (np.isinf(nd_) & (dep == nd_))
+        require(okd.all(), "depth_interpolated_linearly_infinite_stays_infinite", f"{dep} vs {nd_}")
     return {"nontrivial": nontriv, "classes": ["spec_" + mode, "method_" + c["method"],
-                                               "extrap_nonzero" if ex else "extrap_zero"]}
+                                               "extrap_nonzero" if ex else "extrap_zero"] +
+            (["some_infinite_depths"] if np.isinf(np.array(sc["depth"], dtype=float)).any() else [])}
 
 
 SUBCHECKS = [
